@@ -29,6 +29,23 @@ pub enum Mw {
     /// appends a header `x-mw: <index>` and continues
     AddHeader,
     Redirect(u8),
+    /// runs the rest of the chain `n` extra times with body-less clones of the request (`Next` is
+    /// `Copy`: a retrying middleware), then once more with the request itself
+    Retry(u8),
+    /// issues a request that carries per-request middleware of its own, then continues
+    IssueWith { url: String, via: Via, sub: Vec<Mw> },
+}
+/// how a request-issuing middleware sends its own request
+#[derive(Debug, Clone, Copy, PartialEq, Eq, Hash, Serialize, Deserialize)]
+pub enum Via {
+    /// `client.get(u).middleware(..).await`
+    Await,
+    /// `client.send(client.get(u).middleware(..).build())`
+    BuiltSend,
+    /// `client.send(built.clone())` - a copy of a request is that request (without its body)
+    ClonedSend,
+    /// `client.recv_bytes(built)`
+    Recv,
 }
 #[derive(Debug, Clone, Copy, PartialEq, Eq, Hash, Serialize, Deserialize)]
 pub enum Api {
@@ -51,6 +68,16 @@ pub struct Case {
     pub start: String,
     pub body: Vec<u8>,
     pub graph: BTreeMap<String, Answer>,
+    /// method of the app's request (index into METHODS; 0 = POST)
+    #[serde(default)]
+    pub method: u8,
+}
+pub const METHODS: [&str; 6] = ["POST", "GET", "PUT", "DELETE", "PATCH", "OPTIONS"];
+fn method_of(c: &Case) -> crux_http::http::Method {
+    METHODS[c.method as usize % METHODS.len()].parse().unwrap()
+}
+fn sub_idx(parent: usize, j: usize) -> usize {
+    100 + 10 * parent + j
 }
 
 type Log = Arc<Mutex<Vec<String>>>;
@@ -72,6 +99,31 @@ impl Middleware for Mark {
             }
             Mw::AddHeader => {
                 req.append_header("x-mw", self.idx.to_string().as_str());
+                next.run(req, client).await
+            }
+            Mw::Retry(n) => {
+                for _ in 0..*n {
+                    let _ = next.run(req.clone(), client.clone()).await;
+                }
+                next.run(req, client).await
+            }
+            Mw::IssueWith { url, via, sub } => {
+                let mut b = client.get(url);
+                for (j, m) in sub.iter().enumerate() {
+                    b = match m {
+                        Mw::Redirect(a) => b.middleware(Redirect::new(*a)),
+                        k => b.middleware(Mark { idx: sub_idx(self.idx, j), kind: k.clone(), log: self.log.clone() }),
+                    };
+                }
+                match via {
+                    Via::Await => drop(b.await),
+                    Via::BuiltSend => drop(client.send(b.build()).await),
+                    Via::ClonedSend => {
+                        let built = b.build();
+                        drop(client.send(built.clone()).await)
+                    }
+                    Via::Recv => drop(client.recv_bytes(b.build()).await),
+                }
                 next.run(req, client).await
             }
             _ => next.run(req, client).await,
@@ -145,11 +197,11 @@ impl crux_core::App for App {
                 }
                 match c.api {
                     Api::CapabilitySend => {
-                        attach!(http.post(&c.start).body_bytes(&c.body), c, log).send(Event::Done);
+                        attach!(http.request(method_of(&c), c.start.parse().unwrap()).header("x-orig", "1").body_bytes(&c.body), c, log).send(Event::Done);
                         Command::done()
                     }
                     Api::CapabilityAsync => {
-                        let fut = attach!(http.post(&c.start).body_bytes(&c.body), c, log).send_async();
+                        let fut = attach!(http.request(method_of(&c), c.start.parse().unwrap()).header("x-orig", "1").body_bytes(&c.body), c, log).send_async();
                         caps.compose.spawn(|ctx| async move {
                             let r = fut.await;
                             ctx.update_app(Event::DoneAsync(match r {
@@ -162,7 +214,7 @@ impl crux_core::App for App {
                         });
                         Command::done()
                     }
-                    Api::CommandBuild => attach!(crux_http::command::Http::<Effect, Event>::post(&c.start).body_bytes(&c.body), c, log).build().then_send(Event::Done),
+                    Api::CommandBuild => attach!(crux_http::command::Http::<Effect, Event>::request(method_of(&c), c.start.parse().unwrap()).header("x-orig", "1").body_bytes(&c.body), c, log).build().then_send(Event::Done),
                 }
             }
             Event::Done(r) => {
@@ -188,6 +240,8 @@ pub struct Wire {
     pub url: String,
     pub body_len: usize,
     pub marks: Vec<String>,
+    /// carries the header the app put on its own request
+    pub orig: bool,
 }
 
 #[derive(Debug, Clone, PartialEq, Eq)]
@@ -211,7 +265,7 @@ fn serve(c: &Case, url: &str) -> HttpResult {
     }
 }
 
-pub fn observe(c: &Case) -> Result<Run, String> {
+pub fn observe(c: &Case, max_effects: usize) -> Result<Run, String> {
     let log: Log = Arc::new(Mutex::new(vec![]));
     CASE.with(|x| *x.borrow_mut() = Some((c.clone(), log.clone())));
     OUT.with(|o| o.borrow_mut().clear());
@@ -222,12 +276,12 @@ pub fn observe(c: &Case) -> Result<Run, String> {
         let mut steps = 0;
         while let Some(e) = queue.pop_front() {
             steps += 1;
-            if steps > 2000 {
-                return Err("more than 2000 effects for one request".to_string());
+            if steps > max_effects {
+                return Err(format!("more than {max_effects} effects for one request"));
             }
             let Effect::Http(mut req) = e else { continue };
             let op: HttpRequest = req.operation.clone();
-            wire.push(Wire { method: op.method.clone(), url: op.url.clone(), body_len: op.body.len(), marks: op.headers.iter().filter(|h| h.name.eq_ignore_ascii_case("x-mw")).map(|h| h.value.clone()).collect() });
+            wire.push(Wire { method: op.method.clone(), url: op.url.clone(), body_len: op.body.len(), marks: op.headers.iter().filter(|h| h.name.eq_ignore_ascii_case("x-mw")).map(|h| h.value.clone()).collect(), orig: op.headers.iter().any(|h| h.name.eq_ignore_ascii_case("x-orig") && h.value == "1") });
             let more = core.resolve(&mut req, serve(c, &op.url)).map_err(|e| format!("resolve rejected: {e:?}"))?;
             queue.extend(more);
         }
@@ -247,110 +301,128 @@ pub struct Model {
     pub unspecified: bool,
 }
 
-/// Reference semantics. `stale_base` reproduces the pinned tree's treatment of relative
-/// Locations (resolved against the last *absolute* URL) and is used only to name that finding.
-pub fn model(c: &Case, ignore_middleware: bool, stale_base: bool) -> Model {
-    let mut wire = vec![];
-    let mut log = vec![];
-    let mut unspecified = false;
-    let answer = |url: &str| -> Result<(u16, Option<String>), String> {
-        match c.graph.get(url) {
+/// Reference semantics, written from the statement and the documentation: a chain is client
+/// middleware, then per-request middleware, then the shell; every middleware sees the request the
+/// previous one passed on and may run the rest of the chain any number of times; requests a
+/// middleware issues through the client it was given pass through their own per-request
+/// middleware only. `stale_base` reproduces the pinned tree's treatment of relative Locations
+/// (resolved against the last *absolute* URL) and is used only to name that finding.
+#[derive(Clone)]
+struct Req {
+    method: String,
+    url: String,
+    body_len: usize,
+    marks: Vec<String>,
+    orig: bool,
+}
+struct Sem<'a> {
+    c: &'a Case,
+    wire: Vec<Wire>,
+    log: Vec<String>,
+    unspecified: bool,
+    stale_base: bool,
+}
+impl Sem<'_> {
+    fn answer(&self, url: &str) -> Result<(u16, Option<String>), String> {
+        match self.c.graph.get(url) {
             None => Ok((200, None)),
             Some(Answer::IoError) => Err("io-error".into()),
             Some(Answer::Status(s, l)) => Ok((*s, l.clone())),
         }
-    };
-    // documented order: client middleware first, then per-request middleware, then the shell
-    let chain: Vec<Mw> = if c.api == Api::CommandBuild { c.mws.clone() } else { c.client_mws.iter().chain(c.mws.iter()).cloned().collect() };
-    let mws: &[Mw] = if ignore_middleware { &[] } else { &chain };
-    // walk the chain; a middleware either continues (next index) or returns
-    let mut url = c.start.clone();
-    let mut marks: Vec<String> = vec![];
-    let mut entered: Vec<usize> = vec![];
-    let mut result: Option<Result<u16, String>> = None;
-    for (idx, m) in mws.iter().enumerate() {
-        match m {
-            Mw::Redirect(attempts) => {
-                let mut base = url.clone();
-                let mut n = 0u8;
-                while n < *attempts {
-                    n += 1;
-                    wire.push(Wire { method: "POST".into(), url: url.clone(), body_len: 0, marks: marks.clone() });
-                    match answer(&url) {
-                        Err(e) => {
-                            result = Some(Err(e));
-                            break;
-                        }
-                        Ok((s, loc)) if REDIRECT_CODES.contains(&s) => match loc {
-                            None => unspecified = true,
-                            Some(l) => {
-                                let next = match url::Url::parse(&l) {
-                                    Ok(u) => {
-                                        base = u.to_string();
-                                        Ok(u)
-                                    }
-                                    Err(url::ParseError::RelativeUrlWithoutBase) => url::Url::parse(if stale_base { &base } else { &url }).unwrap().join(&l),
-                                    Err(e) => Err(e),
-                                };
-                                match next {
-                                    Ok(u) => url = u.to_string(),
-                                    Err(_) => {
-                                        result = Some(Err("url-error".into()));
-                                        break;
-                                    }
-                                }
-                            }
-                        },
-                        Ok(_) => break,
-                    }
-                }
-                if result.is_some() {
+    }
+    fn shell(&mut self, r: &Req) -> Result<(u16, Option<String>), String> {
+        self.wire.push(Wire { method: r.method.clone(), url: r.url.clone(), body_len: r.body_len, marks: r.marks.clone(), orig: r.orig });
+        self.answer(&r.url)
+    }
+    fn run(&mut self, chain: &[(usize, Mw)], mut req: Req) -> Result<u16, String> {
+        let Some(((idx, m), rest)) = chain.split_first() else {
+            return self.shell(&req).map(|(s, _)| s);
+        };
+        let idx = *idx;
+        if let Mw::Redirect(attempts) = m {
+            let mut base = req.url.clone();
+            let mut n = 0u8;
+            while n < *attempts {
+                n += 1;
+                // probes: body-less copies sent through the inner client (no middleware)
+                let (s, loc) = self.shell(&Req { body_len: 0, ..req.clone() })?;
+                if !REDIRECT_CODES.contains(&s) {
                     break;
                 }
-            }
-            k => {
-                log.push(format!("enter {idx}"));
-                entered.push(idx);
-                match k {
-                    Mw::ShortCircuit(s) => {
-                        result = Some(Ok(*s));
-                        break;
+                match loc {
+                    None => self.unspecified = true,
+                    Some(l) => {
+                        let next = match url::Url::parse(&l) {
+                            Ok(u) => {
+                                base = u.to_string();
+                                Ok(u)
+                            }
+                            Err(url::ParseError::RelativeUrlWithoutBase) => url::Url::parse(if self.stale_base { &base } else { &req.url }).unwrap().join(&l),
+                            Err(e) => Err(e),
+                        };
+                        match next {
+                            Ok(u) => req.url = u.to_string(),
+                            Err(_) => return Err("url-error".into()),
+                        }
                     }
-                    Mw::Issue(u) => wire.push(Wire { method: "GET".into(), url: u.clone(), body_len: 0, marks: vec![] }),
-                    Mw::AddHeader => marks.push(idx.to_string()),
-                    _ => {}
                 }
             }
+            return self.run(rest, req);
         }
+        self.log.push(format!("enter {idx}"));
+        let r = match m {
+            Mw::ShortCircuit(s) => Ok(*s),
+            Mw::Issue(u) => {
+                let _ = self.shell(&Req { method: "GET".into(), url: u.clone(), body_len: 0, marks: vec![], orig: false });
+                self.run(rest, req)
+            }
+            Mw::AddHeader => {
+                req.marks.push(idx.to_string());
+                self.run(rest, req)
+            }
+            Mw::Retry(n) => {
+                for _ in 0..*n {
+                    let _ = self.run(rest, Req { body_len: 0, ..req.clone() });
+                }
+                self.run(rest, req)
+            }
+            Mw::IssueWith { url, sub, .. } => {
+                let sub: Vec<(usize, Mw)> = sub.iter().cloned().enumerate().map(|(j, m)| (sub_idx(idx, j), m)).collect();
+                let _ = self.run(&sub, Req { method: "GET".into(), url: url.clone(), body_len: 0, marks: vec![], orig: false });
+                self.run(rest, req)
+            }
+            Mw::Pass | Mw::Redirect(_) => self.run(rest, req),
+        };
+        self.log.push(format!("exit {idx}"));
+        r
     }
-    let result = match result {
-        Some(r) => r,
-        None => {
-            wire.push(Wire { method: "POST".into(), url: url.clone(), body_len: c.body.len(), marks: marks.clone() });
-            answer(&url).map(|(s, _)| s)
-        }
-    };
-    for idx in entered.iter().rev() {
-        log.push(format!("exit {idx}"));
-    }
+}
+
+pub fn model(c: &Case, ignore_middleware: bool, stale_base: bool) -> Model {
+    // documented order: client middleware first, then per-request middleware, then the shell
+    let chain: Vec<Mw> = if c.api == Api::CommandBuild { c.mws.clone() } else { c.client_mws.iter().chain(c.mws.iter()).cloned().collect() };
+    let chain: Vec<(usize, Mw)> = if ignore_middleware { vec![] } else { chain.into_iter().enumerate().collect() };
+    let mut sem = Sem { c, wire: vec![], log: vec![], unspecified: false, stale_base };
+    let result = sem.run(&chain, Req { method: METHODS[c.method as usize % METHODS.len()].into(), url: c.start.clone(), body_len: c.body.len(), marks: vec![], orig: true });
     let outcome = match (c.api, result) {
         (_, Err(e)) => e,
         (Api::CapabilityAsync, Ok(s)) => format!("ok {s}"),
         (_, Ok(s)) if s >= 400 => format!("http-error {s}"),
         (_, Ok(s)) => format!("ok {s}"),
     };
-    Model { run: Run { wire, outcomes: vec![outcome], log }, unspecified }
+    Model { run: Run { wire: sem.wire, outcomes: vec![outcome], log: sem.log }, unspecified: sem.unspecified }
 }
 
 pub fn judge(c: &Case) -> Result<(), (String, String)> {
-    let got = observe(c).map_err(|p| ("panic".to_string(), format!("sending the request failed: {p}")))?;
     let want = model(c, false, false);
+    let got = observe(c, 2 * want.run.wire.len() + 2000).map_err(|p| ("panic".to_string(), format!("sending the request failed: {p}")))?;
     if got == want.run {
         return Ok(());
     }
     if want.unspecified {
         // bounds only: at most `attempts` probes per Redirect, exactly one outcome
-        let budget: usize = c.client_mws.iter().chain(c.mws.iter()).map(|m| if let Mw::Redirect(a) = m { *a as usize } else { 0 }).sum::<usize>() + c.client_mws.iter().chain(c.mws.iter()).filter(|m| matches!(m, Mw::Issue(_))).count() + 1;
+        // the reference keeps probing the unchanged URL until the attempts are used up, which is the most any reading allows
+        let budget: usize = want.run.wire.len();
         if got.outcomes.len() == 1 && got.wire.len() <= budget && got.wire.iter().filter(|w| w.body_len > 0).count() <= 1 {
             return Ok(());
         }
@@ -376,12 +448,18 @@ const URLS: &[&str] = &["http://h/a", "http://h/b/c", "http://h/d/e/f", "http://
 const LOCS: &[&str] = &["http://h/b/c", "http://g/x", "c2", "../up", "/root", "?q=2", "http://h/a", "http://[bad", "d/e/f", "http://h/d/e/f", "//g/x", ""];
 
 pub fn strategy() -> BoxedStrategy<Case> {
-    let mw = prop_oneof![
+    let leaf = prop_oneof![
         3 => Just(Mw::Pass),
         1 => prop_oneof![Just(200u16), Just(404), Just(302)].prop_map(Mw::ShortCircuit),
         2 => prop_oneof![Just("http://side/"), Just("http://h/a")].prop_map(|s| Mw::Issue(s.to_string())),
         2 => Just(Mw::AddHeader),
         3 => prop_oneof![4 => 0u8..5, 1 => Just(255u8), 1 => 5u8..40].prop_map(Mw::Redirect),
+    ];
+    let via = prop_oneof![Just(Via::Await), Just(Via::BuiltSend), Just(Via::ClonedSend), Just(Via::Recv)];
+    let mw = prop_oneof![
+        12 => leaf.clone(),
+        1 => (1u8..3).prop_map(Mw::Retry),
+        2 => (prop::sample::select(URLS), via, prop::collection::vec(leaf, 0..3)).prop_map(|(u, via, sub)| Mw::IssueWith { url: u.to_string(), via, sub }),
     ];
     let answer = prop_oneof![
         2 => prop_oneof![Just(200u16), Just(204), Just(304), Just(404), Just(500)].prop_map(|s| Answer::Status(s, None)),
@@ -403,16 +481,17 @@ pub fn strategy() -> BoxedStrategy<Case> {
         prop::sample::select(URLS).prop_map(str::to_string),
         prop::collection::vec(any::<u8>(), 1..6),
         graph,
+        prop_oneof![3 => Just(0u8), 2 => 1u8..6],
     )
-        .prop_map(|(api, client_mws, mws, start, body, graph)| Case { client_mws: if api == Api::CommandBuild { vec![] } else { client_mws }, api, mws, start, body, graph })
+        .prop_map(|(api, client_mws, mws, start, body, graph, method)| Case { client_mws: if api == Api::CommandBuild { vec![] } else { client_mws }, api, mws, start, body, graph, method })
         .boxed()
 }
 
 fn reproducer(sig: &str) -> Option<Case> {
     let chain = BTreeMap::from([("http://h/a".to_string(), Answer::Status(302, Some("d/e/f".into()))), ("http://h/d/e/f".to_string(), Answer::Status(307, Some("c2".into())))]);
     match sig {
-        "command-api-ignores-middleware" => Some(Case { api: Api::CommandBuild, client_mws: vec![], mws: vec![Mw::AddHeader], start: "http://h/a".into(), body: b"x".to_vec(), graph: BTreeMap::new() }),
-        "redirect-relative-base-stale" => Some(Case { api: Api::CapabilitySend, client_mws: vec![], mws: vec![Mw::Redirect(3)], start: "http://h/a".into(), body: b"x".to_vec(), graph: chain }),
+        "command-api-ignores-middleware" => Some(Case { api: Api::CommandBuild, client_mws: vec![], mws: vec![Mw::AddHeader], start: "http://h/a".into(), body: b"x".to_vec(), graph: BTreeMap::new(), method: 0 }),
+        "redirect-relative-base-stale" => Some(Case { api: Api::CapabilitySend, client_mws: vec![], mws: vec![Mw::Redirect(3)], start: "http://h/a".into(), body: b"x".to_vec(), graph: chain, method: 0 }),
         _ => None,
     }
 }
@@ -454,6 +533,14 @@ pub fn main(mode: Mode) {
             if has_redirect && depth >= 2 { "redirect:chain>=2" } else if has_redirect && depth == 1 { "redirect:chain=1" } else { "redirect:none-followed" },
             if c.mws.len() >= 2 { "stack:>=2" } else { "stack:<2" },
             if !c.client_mws.is_empty() && !c.mws.is_empty() { "stack:client+request" } else { "stack:one-level" },
+            if c.client_mws.iter().chain(c.mws.iter()).any(|m| matches!(m, Mw::Retry(_))) { "mw:retry" } else { "mw:no-retry" },
+            match c.client_mws.iter().chain(c.mws.iter()).find_map(|m| if let Mw::IssueWith { via, sub, .. } = m { Some((*via, sub.len())) } else { None }) {
+                Some((Via::ClonedSend, n)) if n > 0 => "issue:cloned-request-with-middleware",
+                Some((_, n)) if n > 0 => "issue:request-with-middleware",
+                Some(_) => "issue:bare",
+                None => "issue:none",
+            },
+            if c.method == 0 { "method:post" } else { "method:other" },
         ];
         match judge(c) {
             Ok(()) => {
@@ -506,7 +593,7 @@ pub fn main(mode: Mode) {
                 Report {
                     prop,
                     tier,
-                    rule: "client-level stacks of 0-2 and per-request stacks of 0-4 middlewares (pass / short-circuit / request-issuing through the inner client / header-adding / Redirect with attempts 0..=255 at any position), POST with a body to one of 8 URLs, a served graph answering each URL with a status and an optional Location (absolute, relative, ../, /rooted, query-only, scheme-relative, empty, invalid, missing) or a shell error, chains of two relative hops built on purpose; capability send, capability send_async and command build; non-trivial = >= 2 middleware kinds in the stack, or a followed chain of >= 2 hops with a relative one under Redirect(>=2); distinct = distinct case",
+                    rule: "client-level stacks of 0-2 and per-request stacks of 0-4 middlewares (pass / short-circuit / request-issuing through the inner client, also with 0-2 middlewares of its own on the issued request, sent by await / send(built) / send(clone of built) / recv_bytes / header-adding / retrying = running the rest of the chain 2-3 times / Redirect with attempts 0..=255 at any position), POST, GET, PUT, DELETE, PATCH or OPTIONS with a body and a header of the app to one of 8 URLs, a served graph answering each URL with a status and an optional Location (absolute, relative, ../, /rooted, query-only, scheme-relative, empty, invalid, missing) or a shell error, chains of two relative hops built on purpose; capability send, capability send_async and command build; non-trivial = >= 2 middleware kinds in the stack, or a followed chain of >= 2 hops with a relative one under Redirect(>=2); distinct = distinct case",
                     assumptions: vec![
                         "expected URL of a hop = RFC 3986 resolution of Location against the URL that answered (url::Url::join)".into(),
                         "a redirect status without Location is unspecified: only the bounds (probes <= attempts, one real request, one outcome) are checked".into(),
